@@ -76,7 +76,8 @@ def permutation(draw, n):
 
 # (two large, closely spaced values - date stamps / long ids - are labels like any other: their
 #  relative difference is far below any floating-point comparison tolerance)
-INT_POOL = [3, -2, 10, 0, 7, 21, 5, 100, -11, 4, 9, 12, 20240105, 20240112]
+INT_POOL = [3, -2, 10, 0, 7, 21, 5, 100, -11, 4, 9, 12, 20240105, 20240112,
+            9007199254740993, 9007199254740994]      # 64-bit ids / ns time stamps: distinct only as integers
 STR_POOL = ['b10', 'a', 'b9', 'c', 'B', 'zz', 'a1', 'cond', 'x', 'b', 'aa', 'd']
 UNI_POOL = ['bär', 'a', 'ß2', 'c', 'Ünï', 'zz', 'π', 'cond', 'x', 'b', 'aa', 'd']
 
